@@ -18,8 +18,10 @@ def header_ctor(ck, agg):
     hc = S["RF24NetworkHeader"]
     init = hc.lookup("__init__")[1]
     # the class attribute(s) the constructor reads and writes (the id counter)
-    ctrs = sorted({t.attr for x in ast.walk(init.node) if isinstance(x, (ast.Assign, ast.AugAssign)) for t in (x.targets if isinstance(x, ast.Assign) else [x.target])
-                   if isinstance(t, ast.Attribute) and isinstance(t.value, ast.Name) and t.value.id == hc.name})
+    # (written by the constructor itself or by a helper method of the class it calls)
+    ctrs = sorted({t.attr for m in hc.methods.values() for x in ast.walk(m.node) if isinstance(x, (ast.Assign, ast.AugAssign))
+                   for t in (x.targets if isinstance(x, ast.Assign) else [x.target])
+                   if isinstance(t, ast.Attribute) and isinstance(t.value, ast.Name) and t.value.id in (hc.name, "cls")})
     agg.add("R11.9", init, "the constructor draws the frame id from a class-level counter (anchor)", len(ctrs) == 1, "class attributes written: %r" % (ctrs,))
     if len(ctrs) != 1:
         return 0
